@@ -14,7 +14,8 @@ BUDGET = {"quick": {"runs": 6000, "wall": 120}, "thorough": {"runs": 400000, "wa
 RULE = ("rule sets (1-3 rules per command; scopes global / ip / specific IPv4 address; n in "
         "{-1,1,2,3,5,10}; intervals s/m/h) x arrival sequences of (dt, address, command) with dt on "
         "the grid {0, eps, I-eps, I, I+eps} (systematic short sequences for even run indices, random "
-        "long/sustained ones otherwise) and interleaved cleanup() calls; non-trivial = at least one "
+        "long/sustained ones otherwise) and interleaved cleanup() calls; 6% of the runs are bounded-exhaustive: one "
+        "small rule set x ALL 780 arrival sequences of length <= 4 over that grid; non-trivial = at least one "
         "message refused and one admitted after a refusal; distinct = hash of (rules, decision "
         "string)")
 COMPONENTS = {"real": ["nostr_relay.rate_limiter.RateLimiter"], "stub": ["monotonic clock (virtual)"]}
@@ -41,7 +42,25 @@ def _rule(rng, allow_exempt=True):
     return "%d/%s" % (n, u)
 
 
+def gen_enum(rng):
+    """bounded-exhaustive mode: one small rule set, ALL arrival sequences up to length 5 over the grid
+    {0, eps, I-eps, I, I+eps} (one address, one command, optional cleanup between two arrivals)"""
+    n1 = rng.choice([1, 2, 3])
+    u1 = rng.choice(["s", "m"])
+    spec = "%d/%s" % (n1, u1)
+    if rng.random() < 0.5:
+        u2 = "m" if u1 == "s" else "h"
+        spec += ",%d/%s" % (rng.choice([2, 3, 5]), u2)
+    scope = rng.choice(["ip", "global", ADDRS[0]])
+    rules = {scope: {"EVENT": spec}}
+    if scope == ADDRS[0] and rng.random() < 0.5:
+        rules["ip"] = {"EVENT": "1/s"}
+    return {"mode": "enum", "rules": rules, "arrivals": [], "length": 4, "cleanup": rng.random() < 0.3}
+
+
 def gen(rng, knobs):
+    if rng.random() < 0.06:
+        return gen_enum(rng)
     rules = {}
     scopes = ["global", "ip"] + [a for a in ADDRS[:3] if rng.random() < 0.3]
     rng.shuffle(scopes)
@@ -96,6 +115,9 @@ def gen(rng, knobs):
 
 
 def sample(case):
+    if case.get("mode") == "enum":
+        return {"mode": "enum: all sequences of length <= %d over {0,eps,I-eps,I,I+eps}" % case["length"],
+                "rules": case["rules"], "cleanup_in_the_middle": case["cleanup"]}
     c = dict(case)
     c["arrivals"] = case["arrivals"][:12]
     c["n_arrivals"] = len(case["arrivals"])
@@ -141,6 +163,48 @@ def run(case, sim):
 
 
 def _run(case, sim, RateLimiter):
+    if case.get("mode") == "enum":
+        return _run_enum(case, sim, RateLimiter)
+    return _run_one(case, sim, RateLimiter)
+
+
+def _run_enum(case, sim, RateLimiter):
+    import itertools
+    rules = parse_rules(case["rules"])
+    I = min(i for rs in rules.values() for i, n in rs)
+    grid = [0, EPS, I - EPS, I, I + EPS]
+    total = 0
+    viols = []
+    refusing = 0
+    for L in range(1, case.get("length", 5) + 1):
+        for seq in itertools.product(grid, repeat=L):
+            arr = []
+            for j, dt in enumerate(seq):
+                arr.append([dt, ADDRS[0], "EVENT"])
+                if case.get("cleanup") and j == L // 2:
+                    arr.append([0, "", "CLEANUP"])
+            sub = {"rules": case["rules"], "arrivals": arr, "mode": "enum-seq"}
+            t0 = sim.clock.mono
+            r = _run_one(sub, sim, RateLimiter, quiet=True)
+            total += 1
+            if r["probes"].get("refusals"):
+                refusing += 1
+            for v in r["violations"]:
+                v = dict(v)
+                v["detail"] = dict(v["detail"], sequence=list(seq))
+                viols.append(v)
+            if viols:
+                break
+        if viols:
+            break
+    sim.note("enum", "%d %d" % (total, refusing))
+    import hashlib
+    return {"violations": viols[:1], "probes": {"exhaustive_sequences": total, "mode_enum": 1, "enum_sequences_with_refusal": refusing},
+            "signature": hashlib.sha256(repr(sorted(case["rules"].items())).encode()).hexdigest()[:16],
+            "nontrivial": refusing > 0}
+
+
+def _run_one(case, sim, RateLimiter, quiet=False):
     rules = parse_rules(case["rules"])
     lim = RateLimiter({k: dict(v) for k, v in case["rules"].items()})
     viol = []
@@ -173,10 +237,12 @@ def _run(case, sim, RateLimiter):
         now = sim.clock.mono
         if cmd == "CLEANUP":
             lim.cleanup()
-            sim.note("cleanup")
+            if not quiet:
+                sim.note("cleanup")
             continue
         limited = bool(lim.is_limited(addr, [cmd, {}]))
-        sim.note("arr", "%s %s %s" % (addr, cmd, int(limited)))
+        if not quiet:
+            sim.note("arr", "%s %s %s" % (addr, cmd, int(limited)))
         decisions.append("1" if limited else "0")
         app = applicable(addr, cmd)
         if limited:
